@@ -445,7 +445,7 @@ func TestC02_MultiFault(t *testing.T) {
 			return nil
 		})
 		nfaults := 0
-		nact := rapid.IntRange(4, 16).Draw(rt, "nactions")
+		nact := rapid.IntRange(4, scale(16, 40)).Draw(rt, "nactions")
 		for i := 0; i < nact; i++ {
 			switch a := rapid.IntRange(0, 9).Draw(rt, "action"); {
 			case a <= 1:
